@@ -8,6 +8,7 @@ import (
 	"os"
 	"regexp"
 	"sort"
+	"strconv"
 	"strings"
 
 	"golang.org/x/tools/go/ssa"
@@ -333,6 +334,72 @@ func (a *tagAnalysis) checkContentWritten(t tagTuple, pos token.Pos) {
 	}
 }
 
+// opParts: the parts of a written operand on this path — concatenations flattened, string phis replaced by the value that came in
+// over the edge this path took (recorded in the path state for the phis that feed write operands).
+func (a *tagAnalysis) opParts(t tagTuple, v ssa.Value) []ssa.Value {
+	var out []ssa.Value
+	var rec func(v ssa.Value, depth int)
+	rec = func(v ssa.Value, depth int) {
+		if depth > 12 {
+			out = append(out, v)
+			return
+		}
+		switch x := v.(type) {
+		case *ssa.BinOp:
+			if x.Op == token.ADD {
+				rec(x.X, depth+1)
+				rec(x.Y, depth+1)
+				return
+			}
+		case *ssa.Phi:
+			if s, ok := t.vals["$p:"+x.Name()]; ok {
+				if i, err := strconv.Atoi(s); err == nil && i >= 0 && i < len(x.Edges) {
+					rec(x.Edges[i], depth+1)
+					return
+				}
+			}
+		}
+		out = append(out, v)
+	}
+	rec(v, 0)
+	return out
+}
+
+// operandPhis: the string phis that (through concatenation and other phis) feed an operand of a buffer write.
+func (a *tagAnalysis) operandPhis() map[*ssa.Phi]bool {
+	out := map[*ssa.Phi]bool{}
+	var rec func(v ssa.Value)
+	rec = func(v ssa.Value) {
+		switch x := v.(type) {
+		case *ssa.BinOp:
+			if x.Op == token.ADD {
+				rec(x.X)
+				rec(x.Y)
+			}
+		case *ssa.Phi:
+			if out[x] || !isStringType(x.Type()) {
+				return
+			}
+			out[x] = true
+			for _, e := range x.Edges {
+				rec(e)
+			}
+		}
+	}
+	eachInstr(a.fn, func(b *ssa.BasicBlock, in ssa.Instruction) {
+		if ci, ok := in.(ssa.CallInstruction); ok {
+			if op, _, ok := a.writeOp(ci.Common()); ok {
+				rec(op)
+			} else if bi := bufArgIndex(ci.Common(), a.buf); bi >= 0 {
+				if ai := writeWrapperArg(staticCallee(ci.Common()), bi, a.wrapperWrite); ai >= 0 {
+					rec(ci.Common().Args[ai])
+				}
+			}
+		}
+	})
+	return out
+}
+
 // concatParts flattens a left-nested string concatenation.
 func concatParts(v ssa.Value) []ssa.Value {
 	if bo, ok := v.(*ssa.BinOp); ok && bo.Op == token.ADD {
@@ -474,8 +541,7 @@ func formSkeleton(form []ssa.Value) []string {
 }
 
 // shape: lexical form of the markup writes — a start tag is "<"+key, an end tag "</"+key+">" (or "></"+key+">") with the same key value, an attribute ` name="value"`.
-func (a *tagAnalysis) shape(ev string, v ssa.Value, pos token.Pos) {
-	parts := concatParts(v)
+func (a *tagAnalysis) shape(ev string, parts []ssa.Value, v ssa.Value, pos token.Pos) {
 	cs := func(i int) string {
 		if i < len(parts) {
 			if s, ok := constString(parts[i]); ok {
@@ -543,7 +609,7 @@ var pctName = regexp.MustCompile(`%([A-Za-z_][A-Za-z0-9_]*)`)
 
 // factDeps: the SSA value names a fact key speaks about.
 func factDeps(k string) []string {
-	if strings.HasPrefix(k, "$d:") || strings.HasPrefix(k, "$a:") {
+	if strings.HasPrefix(k, "$d:") || strings.HasPrefix(k, "$a:") || strings.HasPrefix(k, "$p:") {
 		return []string{k[3:]}
 	}
 	if strings.HasPrefix(k, "$") {
@@ -612,7 +678,7 @@ func (a *tagAnalysis) absOf(t tagTuple, v ssa.Value) string {
 var nonEmptyRender = map[string]bool{"float64": true, "float32": true, "bool": true, "int": true, "int8": true, "int16": true, "int32": true, "int64": true,
 	"uint": true, "uint8": true, "uint16": true, "uint32": true, "uint64": true, "encoding/json.Number": true}
 
-// lenOfRendered: len(fmt.Sprintf("%v", x)) is positive when every dynamic type x can have on this path renders to a non-empty text.
+// lenOfRendered: len(x) is positive when x is certainly a non-empty string.
 func (a *tagAnalysis) lenOfRendered(t tagTuple, v ssa.Value) string {
 	c, ok := v.(*ssa.Call)
 	if !ok {
@@ -622,20 +688,27 @@ func (a *tagAnalysis) lenOfRendered(t tagTuple, v ssa.Value) string {
 	if !ok || bi.Name() != "len" || len(c.Call.Args) != 1 {
 		return ""
 	}
-	sp, ok := c.Call.Args[0].(*ssa.Call)
-	if !ok || !isCallTo(sp.Common(), "fmt.Sprintf") || len(sp.Call.Args) != 2 {
-		return ""
+	if a.nonEmptyStr(t, c.Call.Args[0], nil, 0) {
+		return "+"
+	}
+	return ""
+}
+
+// sprintfOperand: the single operand of fmt.Sprintf("%v", x), or nil.
+func sprintfOperand(sp *ssa.Call) ssa.Value {
+	if !isCallTo(sp.Common(), "fmt.Sprintf") || len(sp.Call.Args) != 2 {
+		return nil
 	}
 	if f, ok := sp.Call.Args[0].(*ssa.Const); !ok || f.Value == nil || constant.StringVal(f.Value) != "%v" {
-		return ""
+		return nil
 	}
 	sl, ok := sp.Call.Args[1].(*ssa.Slice)
 	if !ok {
-		return ""
+		return nil
 	}
 	al, ok := sl.X.(*ssa.Alloc)
 	if !ok {
-		return ""
+		return nil
 	}
 	var operand ssa.Value
 	n := 0
@@ -651,22 +724,111 @@ func (a *tagAnalysis) lenOfRendered(t tagTuple, v ssa.Value) string {
 			}
 		}
 	}
-	if n != 1 || operand == nil || a.typeOf == nil {
-		return ""
+	if n != 1 {
+		return nil
 	}
-	ts := a.typeOf(t, operand)
-	if ts.neg || len(ts.ts) == 0 {
-		return ""
+	return operand
+}
+
+// nonEmptyStr: v is a string that cannot be empty: a non-empty constant, the %v rendering of a value all of whose possible dynamic
+// types render to something, a strconv formatting result, a concatenation with such a part, a phi of such values, or the result of a
+// module function all of whose returns are such values (env gives the type sets of that function's interface parameters).
+func (a *tagAnalysis) nonEmptyStr(t tagTuple, v ssa.Value, env map[*ssa.Parameter]tset, depth int) bool {
+	if depth > 6 {
+		return false
 	}
-	for k := range ts.ts {
-		if !nonEmptyRender[k] {
-			return ""
+	switch x := v.(type) {
+	case *ssa.Const:
+		s, ok := constString(x)
+		return ok && s != ""
+	case *ssa.BinOp:
+		if x.Op == token.ADD {
+			return a.nonEmptyStr(t, x.X, env, depth+1) || a.nonEmptyStr(t, x.Y, env, depth+1)
 		}
-		if k == "encoding/json.Number" {
-			a.assumedNumber = true
+	case *ssa.Phi:
+		for _, e := range x.Edges {
+			if e == ssa.Value(x) {
+				continue
+			}
+			if !a.nonEmptyStr(t, e, env, depth+1) {
+				return false
+			}
+		}
+		return len(x.Edges) > 0
+	case *ssa.Call:
+		if isCallTo(x.Common(), "strconv.FormatInt", "strconv.FormatUint", "strconv.FormatFloat", "strconv.Itoa", "strconv.FormatBool", "strconv.Quote") {
+			return true
+		}
+		if op := sprintfOperand(x); op != nil {
+			var ts tset
+			switch o := op.(type) {
+			case *ssa.MakeInterface:
+				ts = posT(normT(tname(o.X.Type())))
+			case *ssa.Parameter:
+				if e, ok := env[o]; ok {
+					ts = e
+				} else if env == nil && a.typeOf != nil {
+					ts = a.typeOf(t, op)
+				} else {
+					return false
+				}
+			default:
+				if env != nil || a.typeOf == nil {
+					return false
+				}
+				ts = a.typeOf(t, op)
+			}
+			if ts.neg || len(ts.ts) == 0 {
+				return false
+			}
+			for k := range ts.ts {
+				if !nonEmptyRender[k] {
+					return false
+				}
+				if k == "encoding/json.Number" {
+					a.assumedNumber = true
+				}
+			}
+			return true
+		}
+		if g := staticCallee(x.Common()); g != nil && a.p.InModule(g) && len(g.Blocks) > 0 && g != a.fn {
+			// type sets of the callee's interface parameters, from the arguments at this call (caller context only)
+			cenv := map[*ssa.Parameter]tset{}
+			for i, prm := range g.Params {
+				if i >= len(x.Call.Args) || !isIfaceType(prm.Type()) {
+					continue
+				}
+				arg := x.Call.Args[i]
+				switch o := arg.(type) {
+				case *ssa.MakeInterface:
+					cenv[prm] = posT(normT(tname(o.X.Type())))
+				case *ssa.Parameter:
+					if e, ok := env[o]; ok {
+						cenv[prm] = e
+					} else if env == nil && a.typeOf != nil {
+						cenv[prm] = a.typeOf(t, arg)
+					}
+				default:
+					if env == nil && a.typeOf != nil {
+						cenv[prm] = a.typeOf(t, arg)
+					}
+				}
+			}
+			nret := 0
+			for _, b := range g.Blocks {
+				ret, ok := b.Instrs[len(b.Instrs)-1].(*ssa.Return)
+				if !ok {
+					continue
+				}
+				nret++
+				if len(ret.Results) != 1 || !a.nonEmptyStr(t, ret.Results[0], cenv, depth+1) {
+					return false
+				}
+			}
+			return nret > 0
 		}
 	}
-	return "+"
+	return false
 }
 
 // evalCond: "T", "F" or "" (unknown) for a branch condition under the tuple; also returns a refinement function for each edge.
@@ -753,20 +915,33 @@ func (a *tagAnalysis) refine(t tagTuple, cond ssa.Value, taken bool) tagTuple {
 					a.setVal(n, g.Cond, "F")
 				}
 			}
+			// a phi is, on this path, the value that came in over the recorded edge: what is learnt about the phi holds for that value
+			if ph, isPhi := g.Cond.(*ssa.Phi); isPhi {
+				if sl, ok := t.vals["$p:"+ph.Name()]; ok {
+					if i, err := strconv.Atoi(sl); err == nil && i >= 0 && i < len(ph.Edges) {
+						if _, isC := ph.Edges[i].(*ssa.Const); !isC && ph.Edges[i] != ssa.Value(ph) {
+							return a.refine(n, ph.Edges[i], g.Pol)
+						}
+					}
+				}
+			}
 		}
 	}
 	return n
 }
 
+
 // classify a buffer write operand by its leftmost constant prefix.
-func (a *tagAnalysis) classify(v ssa.Value) string {
-	for {
-		bo, ok := v.(*ssa.BinOp)
-		if !ok || bo.Op != token.ADD {
-			break
+func (a *tagAnalysis) classify(parts []ssa.Value) string {
+	// skip empty constants at the front
+	for len(parts) > 1 {
+		if s, ok := constString(parts[0]); ok && s == "" {
+			parts = parts[1:]
+			continue
 		}
-		v = bo.X
+		break
 	}
+	v := parts[0]
 	if s, ok := constString(v); ok {
 		switch {
 		case strings.HasPrefix(s, "></"):
@@ -881,11 +1056,12 @@ func mapEncoderAnalysis(p *Prog, r *Report, rule string) *tagAnalysis {
 	}
 	a.wrapperWrite = "(*bytes.Buffer).WriteString"
 	a.onWrite = func(t *tagTuple, v ssa.Value, raw bool, pos token.Pos) {
-		ev := a.classify(v)
+		parts := a.opParts(*t, v)
+		ev := a.classify(parts)
 		if raw {
 			ev = "text"
 		}
-		a.shape(ev, v, pos)
+		a.shape(ev, parts, v, pos)
 		a.apply(t, ev, pos)
 	}
 	a.onRecurse = func(t *tagTuple, pos token.Pos) { a.apply(t, "recurse", pos) }
@@ -1089,6 +1265,7 @@ func (a *tagAnalysis) run(r *Report, rule string) bool {
 		}
 		return n, true
 	}
+	opPhis := a.operandPhis()
 	in := map[*ssa.BasicBlock]map[string]tagTuple{}
 	start := tagTuple{t: tsNone, vals: map[string]string{}, types: map[string]tset{}}
 	if a.src != nil && a.srcInstr == nil {
@@ -1235,6 +1412,9 @@ func (a *tagAnalysis) run(r *Report, rule string) bool {
 					ph, ok := ins.(*ssa.Phi)
 					if !ok {
 						break
+					}
+					if (opPhis[ph] || relevant[ph] && isBoolType(ph.Type())) && slot >= 0 {
+						nt.vals["$p:"+ph.Name()] = strconv.Itoa(slot)
 					}
 					if a.src != nil && slot >= 0 {
 						if a.isSrcNow(pre, ph.Edges[slot]) {
@@ -1402,9 +1582,9 @@ func lexConst(s string) []string {
 }
 
 // seqEvents: the token events of one written operand.
-func (a *tagAnalysis) seqEvents(v ssa.Value) []string {
+func (a *tagAnalysis) seqEvents(t tagTuple, v ssa.Value) []string {
 	var out []string
-	for _, part := range concatParts(v) {
+	for _, part := range a.opParts(t, v) {
 		if s, ok := constString(part); ok {
 			out = append(out, lexConst(s)...)
 			continue
@@ -1602,7 +1782,7 @@ func seqEncoderAnalysis(p *Prog, r *Report, rule string) *tagAnalysis {
 		t.t = n
 	}
 	a.onWrite = func(t *tagTuple, v ssa.Value, raw bool, pos token.Pos) {
-		evs := a.seqEvents(v)
+		evs := a.seqEvents(*t, v)
 		for _, ev := range evs {
 			if ev != "TEXT" && ev != "WS" {
 				a.shapeSites[pos] = true
